@@ -381,3 +381,51 @@ def c19_layout(ctx, case):
          "in double precision")
 def c19_single(ctx, case):
     _dt.single_body(ctx, case, _dt.TABLES["C19"])
+
+
+# ---- a silent record ---------------------------------------------------------------
+@st.composite
+def silent_case(draw):
+    cplx = draw(st.booleans())
+    N = draw(st.integers(16, 96))
+    NW = draw(st.sampled_from([v for v in NWS if 2 * v < N]))
+    return {"n": N, "complex": cplx, "NW": NW, "k": draw(st.sampled_from([None, 2, int(2 * NW)])),
+            "method": draw(st.sampled_from(["adapt", "adapt", "unity", "eigen"])), "pad": draw(st.sampled_from([0, 1, 7]))}
+
+
+@sub("C19.silent", strategy=silent_case(), quick=100, thorough=1000,
+     doc="an all-zero record (data of length 16.. includes it): eigenspectra are zero, the weights are finite real numbers in "
+         "[0, 1/eigenvalue], and the class estimate is real, finite and zero everywhere -- in particular not NaN for 'adapt'")
+def c19_silent(ctx, case):
+    N = case["n"]
+    x = np.zeros(N, dtype=complex if case["complex"] else float)
+    sig = {"clause": "silent", "method": case["method"]}
+    ctx.sig_on_exception = sig
+    ctx.cls("complex" if case["complex"] else "real", case["method"], "k default" if case["k"] is None else "k given")
+    ctx.nontrivial(True)
+    nfft = N + case["pad"]
+    with np.errstate(all="ignore"):
+        Sk, w, ev = spectrum.pmtm(x, NW=case["NW"], k=case["k"], NFFT=nfft, method=case["method"])
+        p = spectrum.MultiTapering(x, NW=case["NW"], k=case["k"], NFFT=nfft, method=case["method"], scale_by_freq=False)
+        psd = np.asarray(p.psd)
+    Sk, w, ev = np.asarray(Sk), np.asarray(w), np.asarray(ev)
+    ctx.check(np.all(Sk == 0), "eigenspectra of an all-zero record are not zero", sig=sig)
+    ctx.check(np.all(np.isfinite(w)) and float(np.max(np.abs(np.imag(w)))) == 0, "weights of an all-zero record are not finite real numbers "
+              "(method %s): %r ..." % (case["method"], w.ravel()[:3].tolist()), sig=sig)
+    if case["method"] == "adapt":
+        wr = np.real(w)
+        ctx.check(np.all(wr >= 0) and np.all(wr <= 1.0 / ev[np.newaxis, :] * (1 + 1e-12)),
+                  "'adapt' weights of an all-zero record leave [0, 1/eigenvalue]", sig=sig)
+    ctx.check(np.all(np.isfinite(psd)) and np.all(np.imag(psd) == 0) and np.all(np.real(psd) == 0),
+              "MultiTapering.psd of an all-zero record is not zero (method %s): %r ..." % (case["method"], psd.ravel()[:3].tolist()), sig=sig)
+
+
+# ---- call-form invariance (documented parameter names) ----------------------------
+from vlib import kwcheck as _kw   # noqa: E402
+
+
+@sub("C19.keywords", strategy=_kw.kw_case(_kw.PROPS["C19"]), quick=200, thorough=4000,
+     doc="the same call with its trailing arguments given by their documented names (any split, any order) returns the same "
+         "result as the positional call, and every documented name is accepted: " + ", ".join(_kw.PROPS["C19"]))
+def c19_keywords(ctx, case):
+    _kw.body(ctx, case)
